@@ -25,7 +25,7 @@ def parseBlock (toks : List String) : Option ABlock :=
     | some h, some p, some i, some bf, some hs =>
       let (ik, ia) := Drv.Chain.kaList ins
       let (ok_, oa) := Drv.Chain.kaList outs
-      some { hash := h, prev := p, id := i, burnfee := bf, hasGT := Drv.Chain.bit gt, ok := Drv.Chain.bit ok,
+      some { hash := h, prev := p, id := i, burnfee := bf, hasGT := Drv.Chain.bit gt, ok := Drv.Chain.okBit ok, okNoParent := Drv.Chain.okNPBit ok,
              ins := ik, outs := ok_, inAmts := ia, outAmts := oa, hs := hs }
     | _, _, _, _, _ => none
   | _ => none
